@@ -1,16 +1,16 @@
 #!/bin/bash
-# usage: tools/benign_batch.sh C01 C02 ...   (/tmp/wb_<ID>/KEEP/{1,2,3} -> benign/<ID>-b{1,2,3})
+# usage: tools/benign_batch.sh C01 C02 ...   (${BENIGN_PFX:-/tmp/wb_}<ID>/KEEP/{1,2,3} -> benign/<ID>-b{1,2,3})
 mkdir -p /tmp/benlogs /verif/benign
 for p in "$@"; do
  ( for k in 1 2 3; do
-    [ -f /tmp/wb_$p/KEEP/$k/patch.diff ] && tools/try_benign.sh /tmp/wb_$p/KEEP/$k $p > /tmp/benlogs/$p-b$k.log 2>&1
+    [ -f ${BENIGN_PFX:-/tmp/wb_}$p/KEEP/$k/patch.diff ] && tools/try_benign.sh ${BENIGN_PFX:-/tmp/wb_}$p/KEEP/$k $p > /tmp/benlogs/$p-b$((k+${BENIGN_OFF:-0})).log 2>&1
    done ) &
 done; wait
 for p in "$@"; do for k in 1 2 3; do
-  [ -f /tmp/wb_$p/KEEP/$k/patch.diff ] || continue
-  id=$p-b$k; DST=/verif/benign/$id; mkdir -p $DST
-  cp /tmp/wb_$p/KEEP/$k/patch.diff $DST/; cp /tmp/wb_$p/KEEP/$k/check.py $DST/ 2>/dev/null
-  python3 - /tmp/wb_$p/KEEP/$k/meta.json $DST/meta.json $p /tmp/benlogs/$id.log <<'PY'
+  [ -f ${BENIGN_PFX:-/tmp/wb_}$p/KEEP/$k/patch.diff ] || continue
+  id=$p-b$((k+${BENIGN_OFF:-0})); DST=/verif/benign/$id; mkdir -p $DST
+  cp ${BENIGN_PFX:-/tmp/wb_}$p/KEEP/$k/patch.diff $DST/; cp ${BENIGN_PFX:-/tmp/wb_}$p/KEEP/$k/check.py $DST/ 2>/dev/null
+  python3 - ${BENIGN_PFX:-/tmp/wb_}$p/KEEP/$k/meta.json $DST/meta.json $p /tmp/benlogs/$id.log <<'PY'
 import json, sys
 src, dst, pid, log = sys.argv[1:5]
 try: m = json.load(open(src))
